@@ -26,7 +26,9 @@ META = {
             'program points is regenerated from /repo and must equal the modelled table; the model is evaluated on the oracle '
             'answers observed in live handshakes with deviating peers (wrong key, omitted/flipped/stale/empty signature, other '
             'transcript, scheme not offered, wrong password, wrong binder, wrong Finished) and compared with the real endpoint. '
-            'Two statements are refuted by witnesses replayed on the code (known findings).',
+            'Two statements that were refuted by witnesses replayed on the code (TLS 1.3 client accepted a CertificateVerify scheme '
+            'it had not offered; certificate-only server recorded an unproved SRP user name) are full theorems since /repo fixes '
+            '61d7222 and 11c0ed7; the former witnesses are kept as rejected Examples and as live cases.',
     'note': 'Trusted: Coq kernel + vm_compute; translator/units_c05.py; signature, hash, Finished-MAC, binder and record '
             'protection primitives are oracles (C09/C10); Finished/binder/record answers are set by construction of the '
             'corruption, signature answers are computed from the wire bytes, the raw transcript, hashlib and the certificate '
